@@ -14,3 +14,6 @@ mpz_t table_scratch[TMCG_MAX_FPOWM_T];
 #undef __verif_new_array_zero
 #define __verif_new_array_zero(sz, n) __verif_new_array((sz), (n))
 static inline void tmcg_mpz_fpowm_init(mpz_t *t) { (void)t; /* mpz_init of every entry */ }
+/* element access of the table vector: the index is asserted, every slot stands for the one scratch table */
+static mpz_t *vec_tab_slot;
+static inline mpz_t **vec_tab__op_index(vec_tab *v, size_t i) { __CPROVER_assert(i < v->size, "vector index in range"); vec_tab_slot = table_scratch; return &vec_tab_slot; }
